@@ -12,7 +12,7 @@ def make_scenarios(ctx, count):
     scns = []
     for i in range(count):
         rng = G.rng_for(ctx.seed, "C07", i)
-        mtu = rng.choice([576, 1500, 9216, rng.randint(576, 9216)]) if i % 4 else [576, 1500, 9216, 577][(i // 4) % 4]
+        mtu = G.pick_mtu(rng) if i % 4 else [576, 1500, 9216, 577][(i // 4) % 4]
         cfg = G.rand_cfg(rng, mtu=mtu)
         net = G.Net(rng, cfg["mac"])
         own = cfg["mac"]
